@@ -4,8 +4,8 @@
    in the form "a resource in state ABSENCE contributes 0 and costs 0"; that
    the state is ABSENCE exactly at the listed steps is searched by the oracle.
    The deletion clause (f) is proved for the task priority rules that do not
-   read PERT values (2, 3, 5, 6, 7, 8) with the auto-task flag off; for the
-   other rules it is searched (rule 4, FIFO, has the recorded finding). *)
+   read PERT values (2, 3, 5, 6, 7, 8), with the auto-task flag off or without
+   automatic tasks; for the other rules it is searched (rule 4, FIFO, has the recorded finding). *)
 From Coq Require Import List ZArith QArith Bool Arith.
 From PV Require Import Model.Types Model.Sim Model.LogEdit Model.Example Proofs.Base Proofs.RunLemmas Proofs.C01Proof
   Proofs.C02Proof Proofs.LogsProof Proofs.C0708Proof Proofs.C10Proof Proofs.C13Proof Proofs.KeyCong Proofs.C10Del Proofs.C10Final.
@@ -94,15 +94,32 @@ Theorem C10_deletion_gives_the_absence_free_run : forall c o,
   o_init_state o = true -> o_init_log o = true ->
   forall s0, status (fst (simulate c o s0)) = StSuccess ->
   same_result c (snd (remove_absence c (o_abs o, fst (simulate c o s0)))) (fst (simulate c (no_abs o) s0)).
-Proof. exact deletion_gives_the_absence_free_run. Qed.
+Proof. intros c o Hr Ha Hw Hf HF Hi Hl. exact (deletion_gives_the_absence_free_run c o Hr Hw Hf HF Hi Hl Ha). Qed.
 Print Assumptions C10_deletion_gives_the_absence_free_run.
+
+(* the same with the flag ON when the project has no automatic task (then the
+   flag cannot matter); the configuration must be well formed: workers listed
+   once and in range, facilities in range *)
+Theorem C10_deletion_with_the_flag_on_and_no_automatic_task : forall c o,
+  pert_free (o_rule o) -> o_auto_abs o = true -> (forall t, t_auto c t = false) ->
+  (forall w, In w (all_workers c) -> w < nW c) -> NoDup (all_workers c) ->
+  (forall p f, In f (wp_facs c p) -> f < nF c) ->
+  (forall w, w_abs c w = []) -> (forall f, f_abs c f = []) -> Forest c ->
+  o_init_state o = true -> o_init_log o = true ->
+  forall s0, status (fst (simulate c o s0)) = StSuccess ->
+  same_result c (snd (remove_absence c (o_abs o, fst (simulate c o s0)))) (fst (simulate c (no_abs o) s0)).
+Proof.
+  intros c o Hr Ha Hna W1 W2 W3 Hw Hf HF Hi Hl.
+  exact (deletion_auto_flag_without_auto_tasks c o Hr Hw Hf HF Hi Hl W1 W2 W3 Ha Hna).
+Qed.
+Print Assumptions C10_deletion_with_the_flag_on_and_no_automatic_task.
 
 (* the step relation behind it: an absence step leaves the key of the state
    unchanged up to the worker / facility states; a working step of the run with
    absence and a step of the run without compute key-equal states *)
 Theorem C10_absence_step_is_a_stutter : forall c o u, o_auto_abs o = false -> mem (time u) (o_abs o) = true ->
   KEg c false (step_perform c o (step_allocate c o u)) u.
-Proof. intros c o u H1 H2. exact (absence_half c o H1 u H2). Qed.
+Proof. intros c o u H1 H2. exact (absence_half c o u H1 H2). Qed.
 Print Assumptions C10_absence_step_is_a_stutter.
 
 (* non-vacuity: the two-component assembly project with rule 2 and absence at
